@@ -339,7 +339,14 @@ func judge(c Case) vdrv.Verdict {
 			if ok != nil && ok[0] == "ok" {
 				return vdrv.Skip("jsref-gap")
 			}
-			return vdrv.Fail("esbuild output does not parse (jsref and V8 both reject) for "+name, "valid "+goal, out)
+			v := vdrv.Fail("esbuild output does not parse (jsref and V8 both reject) for "+name, "valid "+goal, out)
+			if ierr == nil && topLevelAwaitLoweredToYield(c, inProg, out, isModule, func(repaired string) bool {
+				rr, e := W.ParseAll([]string{repaired}, goal)
+				return e == nil && len(rr) == 1 && rr[0] == "ok"
+			}) {
+				v.Known = "C14-top-level-await-lowered-to-yield"
+			}
+			return v
 		}
 		// (1) language target: census ⊆ edition
 		if c.Target != "" {
